@@ -30,6 +30,7 @@ type Access struct {
 	Kind  string   // read | write | addr-escape | call | send | close | mapupdate | delete
 	Fn    *ssa.Function
 	Desc  string
+	Via   bool // the access is made in a callee that received the field's value as an argument
 }
 
 func isWriteKind(k string) bool {
@@ -114,6 +115,24 @@ func classifyUses(p *Prog, v ssa.Value, isAddr bool, depth int) []struct {
 					out = append(out, use{"addr-escape", r})
 				} else {
 					out = append(out, use{"call", r})
+					// the value (a map, channel, slice …) is handed to an in-repo function or closure: what the
+					// callee does with that parameter is an access to the field as well
+					if ci, ok := r.(ssa.CallInstruction); ok {
+						for _, g := range p.Callees(ci) {
+							if !p.InRepo(g) || len(g.Blocks) == 0 {
+								continue
+							}
+							args := callArgs(cc)
+							if len(args) != len(g.Params) {
+								continue
+							}
+							for k, a := range args {
+								if a == v {
+									out = append(out, classifyUses(p, g.Params[k], false, depth+1)...)
+								}
+							}
+						}
+					}
 				}
 			}
 		case *ssa.Lookup, *ssa.Range, *ssa.Index, *ssa.Slice, *ssa.BinOp, *ssa.Field, *ssa.TypeAssert, *ssa.MakeInterface, *ssa.Phi, *ssa.Convert, *ssa.ChangeType, *ssa.If, *ssa.Return, *ssa.Extract, *ssa.Next, *ssa.MakeClosure:
@@ -170,7 +189,11 @@ func FieldAccesses(p *Prog, fields map[*types.Var]bool) []Access {
 					continue
 				}
 				seen[k] = true
-				out = append(out, Access{Instr: u.at, Field: fv, Base: bp, Kind: u.kind, Fn: f})
+				fn := f
+				if u.at.Parent() != nil && u.at.Parent() != f {
+					fn = u.at.Parent() // an access made by a callee through the parameter that received the value
+				}
+				out = append(out, Access{Instr: u.at, Field: fv, Base: bp, Kind: u.kind, Fn: fn, Via: fn != f})
 			}
 		})
 	}
@@ -256,6 +279,12 @@ func CheckGuardedBy(c *Ctx, ls *Locksets, spec GuardSpec) {
 		for _, a := range groups[k] {
 			held := ls.MustHeld(a.Instr)
 			ok, d := holdsLock(held, a.Base, lockChain, k.write)
+			if !ok && a.Via && len(lockChain) > 0 {
+				// the owner's path is not expressible in the callee's terms: fall back to the lock's class
+				if h, e := lockHeldByClass(held, lockChain[len(lockChain)-1]); h && (e.Excl || !k.write) {
+					ok, d = true, "lock class "+e.Path.Class()+" held (access through a parameter)"
+				}
+			}
 			if !ok {
 				okAll = false
 				detail = fmt.Sprintf("%s of %s.%s (%s): %s", a.Kind, a.Base.String(), a.Field.Name(), c.at(a.Instr), d)
